@@ -3,6 +3,7 @@ From Coq Require Import NArith ZArith List Bool.
 From AJ Require Import Model.Base Model.Value Model.JsonParse.
 From AJ Require Import Model.Stream.
 From AJ Require Import Spec.Rfc8259 Spec.ParseSpec Proofs.Lex Proofs.ParseComplete Proofs.StreamProofs.
+From AJ Require Import Model.MsgPack Spec.MsgPackSpec Proofs.ResourceBound.
 Local Open Scope N_scope.
 
 (* Exactly the bytes of the value are consumed, whatever follows: after a value of the grammar followed by
@@ -73,6 +74,17 @@ Theorem C16_jsonl_successive_calls : forall cf, decode_unicode cf = true ->
   json_stream cf L (S (length ls)) 0 (jsonl_bytes ls) = jsonl_results 0 ls.
 Proof. exact json_stream_returns_documents_jsonl. Qed.
 Print Assumptions C16_jsonl_successive_calls.
+
+(* back-to-back MessagePack objects (any legal encodings): n objects and n + 1 calls return the n objects in order,
+   each call consuming exactly its object, then EmptyInput *)
+Theorem C16_msgpack_successive_calls : forall cf L vs bs, Forall2 MpEnc vs bs -> Forall mp_limits vs ->
+  Forall (fun v => (mpv_depth v <= L)%nat) vs ->
+  (forall calls, mp_stream cf L calls 0 (concat bs) = firstn calls (mp_results cf 0 vs bs)) /\
+  mp_stream cf L (S (length vs)) 0 (concat bs) = mp_results cf 0 vs bs.
+Proof.
+  intros cf L vs bs H1 H2 H3. split; [exact (mp_stream_objects cf L vs bs H1 H2 H3) | exact (mp_stream_all cf L vs bs H1 H2 H3)].
+Qed.
+Print Assumptions C16_msgpack_successive_calls.
 
 (* the premises are satisfiable: a concrete JSON Lines stream *)
 Example C16_jsonl_example : json_stream default_cfg 10 5 0 (jsonl_bytes ex_lines) = jsonl_results 0 ex_lines.
